@@ -106,13 +106,7 @@ func init() {
 			c.Check(n == 1, fk+" :: header comparison present", w.pos(f.Pos()), "one", fmt.Sprintf("%d comparisons", n))
 			// the verification loop (the one that consults the light client) only continues behind the comparison
 			for _, u := range w.callsTo(f, "light/rpc#Client.updateLightClientIfNeededTo") {
-				var hdr *ssa.BasicBlock
-				for b := u.Block(); b != nil; b = b.Idom() {
-					if b.Comment == "rangeindex.loop" {
-						hdr = b
-						break
-					}
-				}
+				hdr := loopOf(u)
 				if hdr == nil {
 					c.Fail(fk+" :: verification loop", w.ipos(u), "light client is not consulted inside a loop over the metas")
 					continue
